@@ -123,7 +123,7 @@ public:
 
     //----------------------------------------------------------------------------------//
     FASTOR_HINT_INLINE void operator=(const TensorFixedViewExpr2D<Tensor<T,M,N>,fseq<F0,L0,S0>,fseq<F1,L1,S1>,2> &other_src) {
-#ifndef FASTOR_NO_ALIAS
+#if !(FASTOR_NO_ALIAS)
         if (_does_alias) {
             _does_alias = false;
             // Evaluate this into a temporary
@@ -187,7 +187,7 @@ public:
     }
     template<typename Derived, enable_if_t_<!requires_evaluation_v<Derived>,bool> = false>
     FASTOR_HINT_INLINE void operator=(const AbstractTensor<Derived,2> &other) {
-#ifndef FASTOR_NO_ALIAS
+#if !(FASTOR_NO_ALIAS)
         if (_does_alias) {
             _does_alias = false;
             // Evaluate this into a temporary
@@ -258,7 +258,7 @@ public:
     }
     template<typename Derived, enable_if_t_<!requires_evaluation_v<Derived>,bool> = false>
     FASTOR_HINT_INLINE void operator+=(const AbstractTensor<Derived,2> &other) {
-#ifndef FASTOR_NO_ALIAS
+#if !(FASTOR_NO_ALIAS)
         if (_does_alias) {
             _does_alias = false;
             // Evaluate this into a temporary
@@ -321,7 +321,7 @@ public:
     }
     template<typename Derived, enable_if_t_<!requires_evaluation_v<Derived>,bool> = false>
     FASTOR_HINT_INLINE void operator-=(const AbstractTensor<Derived,2> &other) {
-#ifndef FASTOR_NO_ALIAS
+#if !(FASTOR_NO_ALIAS)
         if (_does_alias) {
             _does_alias = false;
             // Evaluate this into a temporary
@@ -384,7 +384,7 @@ public:
     }
     template<typename Derived, enable_if_t_<!requires_evaluation_v<Derived>,bool> = false>
     FASTOR_HINT_INLINE void operator*=(const AbstractTensor<Derived,2> &other) {
-#ifndef FASTOR_NO_ALIAS
+#if !(FASTOR_NO_ALIAS)
         if (_does_alias) {
             _does_alias = false;
             // Evaluate this into a temporary
@@ -447,7 +447,7 @@ public:
     }
     template<typename Derived, enable_if_t_<!requires_evaluation_v<Derived>,bool> = false>
     FASTOR_HINT_INLINE void operator/=(const AbstractTensor<Derived,2> &other) {
-#ifndef FASTOR_NO_ALIAS
+#if !(FASTOR_NO_ALIAS)
         if (_does_alias) {
             _does_alias = false;
             // Evaluate this into a temporary
@@ -514,7 +514,7 @@ public:
     }
     template<typename Derived, size_t DIMS, enable_if_t_<!requires_evaluation_v<Derived>,bool> = false>
     FASTOR_HINT_INLINE void operator=(const AbstractTensor<Derived,DIMS> &other) {
-#ifndef FASTOR_NO_ALIAS
+#if !(FASTOR_NO_ALIAS)
         if (_does_alias) {
             _does_alias = false;
             // Evaluate this into a temporary
@@ -588,7 +588,7 @@ public:
     }
     template<typename Derived, size_t DIMS, enable_if_t_<!requires_evaluation_v<Derived>,bool> = false>
     FASTOR_HINT_INLINE void operator+=(const AbstractTensor<Derived,DIMS> &other) {
-#ifndef FASTOR_NO_ALIAS
+#if !(FASTOR_NO_ALIAS)
         if (_does_alias) {
             _does_alias = false;
             // Evaluate this into a temporary
@@ -653,7 +653,7 @@ public:
     }
     template<typename Derived, size_t DIMS, enable_if_t_<!requires_evaluation_v<Derived>,bool> = false>
     FASTOR_HINT_INLINE void operator-=(const AbstractTensor<Derived,DIMS> &other) {
-#ifndef FASTOR_NO_ALIAS
+#if !(FASTOR_NO_ALIAS)
         if (_does_alias) {
             _does_alias = false;
             // Evaluate this into a temporary
@@ -718,7 +718,7 @@ public:
     }
     template<typename Derived, size_t DIMS, enable_if_t_<!requires_evaluation_v<Derived>,bool> = false>
     FASTOR_HINT_INLINE void operator*=(const AbstractTensor<Derived,DIMS> &other) {
-#ifndef FASTOR_NO_ALIAS
+#if !(FASTOR_NO_ALIAS)
         if (_does_alias) {
             _does_alias = false;
             // Evaluate this into a temporary
@@ -783,7 +783,7 @@ public:
     }
     template<typename Derived, size_t DIMS, enable_if_t_<!requires_evaluation_v<Derived>,bool> = false>
     FASTOR_HINT_INLINE void operator/=(const AbstractTensor<Derived,DIMS> &other) {
-#ifndef FASTOR_NO_ALIAS
+#if !(FASTOR_NO_ALIAS)
         if (_does_alias) {
             _does_alias = false;
             // Evaluate this into a temporary
